@@ -85,6 +85,19 @@ def run(ctx, programs, label="eval_tie"):
     mouts = core.run_stateless(core.RUNNER, "eval", [d["prog"] for _, d in todo])
     louts = core.run_stateless(core.RUNNER, "evallex", [d["prog"] for _, d in todo])
     touts = core.run_stateless(core.RUNNER, "typing", ["(%s %s)" % (d["prog"], d["tenv"]) for _, d in todo])
+    souts = core.run_stateless(core.RUNNER, "strat", [d["prog"] for _, d in todo])
+    for (p, d), so in zip(todo, souts):
+        # the hypothesis of the termination theorem: accepted programs are stratified (what cycles_check guarantees)
+        if so is None or so == "SKIPPED":
+            continue
+        if so == "(1 1)":
+            ctx.count(label + "_stratified_first_order")
+        elif so == "(0 0)":
+            ctx.count(label + "_higher_order_or_alias_application")
+        else:
+            ctx.broken.append("stratification tie: an accepted first-order program is not stratified (%s): %s" %
+                              (so[:20], json.dumps({"mods": p["mods"], "main": p["main"]})[:1500]))
+            ctx.count(label + "_strat_disagree")
     for (p, d), ty in zip(todo, touts):
         # the typing discipline (Model/Typing.v): every accepted program whose tags are variable-free passes wt_progb
         if ty is None or ty == "SKIPPED":
